@@ -49,6 +49,11 @@ def gen_case(seed, tier="quick"):
             "cols": cols, "how": how, "steps": steps, "fresh": rng.random() < (0.1 if tier == "thorough" else 0.004)}
 
 
+def _generic(names):
+    """Field names with momentum spellings mapped to geometric ones (which spelling the dtype shows is not part of C19)."""
+    return tuple(C.GENERIC_OF.get(n, n) for n in (names or ()))
+
+
 def _viol(aspect, i, st, detail):
     return {"prop": "C19", "inv": "I6", "aspect": aspect, "site": f"S:{i}:{st['s']}:{st.get('what', '')}", "pass": "deriv", "detail": str(detail)[:500]}
 
@@ -109,7 +114,7 @@ def check_array(vector, L, i, st, viol, case, deep=True):
         viol.append(_viol("array-class", i, st, f"{type(a).__name__} expected {want_cls.__name__} ({L.origin})"))
         return False
     real_dt = numpy.ndarray.dtype.__get__(a)
-    if tuple(real_dt.names) != tuple(gn):
+    if _generic(real_dt.names) != tuple(gn):
         viol.append(_viol("dtype-names", i, st, f"{real_dt.names} expected {tuple(gn)} ({L.origin})"))
         return False
     if a.shape != t.shape:
@@ -353,7 +358,7 @@ def run_case(case, vector):
             continue
         elif k == "asarray":
             p = numpy.asarray(a)
-            if type(p) is not numpy.ndarray or p.dtype.names != tuple(gn) or p.tobytes() != t.tobytes() or p.shape != t.shape:
+            if type(p) is not numpy.ndarray or _generic(p.dtype.names) != tuple(gn) or p.tobytes() != t.tobytes() or p.shape != t.shape:
                 viol.append(_viol("asarray", i, st, f"{p!r} expected plain {t!r}"))
             q = numpy.asanyarray(a)
             if type(q) is not type(a) or q.view(numpy.ndarray).tobytes() != t.tobytes():
@@ -377,13 +382,13 @@ def run_case(case, vector):
             wcls = getattr(vector, f"{'Momentum' if L.mom else 'Vector'}Numpy{dim}D")
             for nm, oa in arrs:
                 rdt = numpy.ndarray.dtype.__get__(oa)
-                if type(oa) is not wcls or tuple(rdt.names) != tuple(gn):
+                if type(oa) is not wcls or _generic(rdt.names) != tuple(gn):
                     viol.append(_viol("object-array-form-class", i, dict(st, what=nm), f"{type(oa).__name__}{rdt.names} expected {wcls.__name__}{tuple(gn)}"))
                     continue
-                for g in gn:
-                    if float(numpy.asarray(oa.view(numpy.ndarray)[g]).ravel()[0]) != float(t[idx][g]):
+                for g, fld in zip(gn, rdt.names):
+                    if float(numpy.asarray(oa.view(numpy.ndarray)[fld]).ravel()[0]) != float(t[idx][g]):
                         viol.append(_viol("object-array-form-values", i, dict(st, what=nm), f"{g}: {oa.view(numpy.ndarray)[g]} expected {t[idx][g]}"))
-            if type(plain) is not numpy.ndarray or plain.dtype.names != tuple(gn):
+            if type(plain) is not numpy.ndarray or _generic(plain.dtype.names) != tuple(gn):
                 viol.append(_viol("object-asarray", i, st, f"{type(plain).__name__} {plain.dtype}"))
             continue
         if new is not None:
